@@ -1621,6 +1621,17 @@ impl KotoVm {
                     KValue::Null
                 }
             }
+            Range(r) if r.is_bounded() => {
+                // e.g. `(first, rest...)` matched against `1..5`: the rest is the sub-range
+                let bounds = r.as_bounded_range();
+                let size = (bounds.end - bounds.start) as usize;
+                let index = signed_index_to_unsigned(index, size).min(size) as i64;
+                if is_slice_to {
+                    KRange::from(bounds.start..bounds.start + index).into()
+                } else {
+                    KRange::from(bounds.start + index..bounds.end).into()
+                }
+            }
             unexpected => return unexpected_type("a sliceable value", &unexpected),
         };
 
